@@ -80,6 +80,9 @@ impl<'a> Iterator for Params<'a> {
                     ));
                 }
                 self.input = rest;
+            } else if !rest.is_empty() {
+                // new-params-bound flag is 0: skip the flag byte, the values follow it
+                self.input = &rest[1..];
             }
         }
 
